@@ -2,6 +2,7 @@
 
 from dataclasses import fields
 from enum import Enum
+from importlib import import_module
 from typing import Optional, Type, Union, cast
 
 from frozendict import frozendict
@@ -123,6 +124,19 @@ class Serializer:
         return f'{cls.__module__}.{cls.__qualname__}'
 
     def deserialize_class(self, serialized_class: jsonable) -> Type:
-        cls_module, cls_name = cast(str, serialized_class).rsplit('.', 1)
-        module = __import__(cls_module, fromlist=[cls_name])
-        return getattr(module, cls_name)
+        # The qualified name of a class defined inside another class
+        # contains dots itself, so import the longest importable
+        # module path and look the remaining names up from there.
+        parts = cast(str, serialized_class).split('.')
+        for module_len in range(len(parts) - 1, 0, -1):
+            module_name = '.'.join(parts[:module_len])
+            try:
+                obj = import_module(module_name)
+            except ModuleNotFoundError as ex:
+                if module_len > 1 and ex.name == module_name:
+                    continue
+                raise
+            for name in parts[module_len:]:
+                obj = getattr(obj, name)
+            return obj
+        raise SerializationError(f"Cannot find class: '{serialized_class}'")
